@@ -116,6 +116,14 @@ def verdict(prop, tier, seed, mods, results, wall, write=True, mres=None, scratc
                 failed[key] = f
                 if key not in obligations and key not in bounded_obl:   # side condition discovered by the verifier
                     obligations[key] = {"id": f["id"], "props": f["props"], "clause": f["clause"], "backend": "verus/z3" if r.unit.tool == "verus" else "kani/cbmc", "unit": r.unit.name, "cfg": r.cfg, "side_condition": True}
+    # harnesses whose solver timed out: neither discharged nor failed
+    timeouts = []
+    for r in results:
+        for oid in getattr(r, "timeouts", []) or []:
+            key = oid + (("@" + r.cfg) if r.cfg else "")
+            if key in obligations and prop in obligations[key]["props"]:
+                del obligations[key]
+                timeouts.append((r.unit.name, r.cfg, oid))
     # implicit side conditions: each verus query (function / loop) that verified carries its
     # overflow / index / unwrap / unreachable obligations; counted from the verifier's own report.
     implicit = sum(r.verified_count for r in results if r.unit.tool == "verus" and not r.undecided and prop in r.unit.implicit)
@@ -140,6 +148,8 @@ def verdict(prop, tier, seed, mods, results, wall, write=True, mres=None, scratc
             out_lines.append("VIOLATION property=%s replay=%s%s" % (prop, path, "" if reproduced else " no-failing-input-found"))
     for r in undecided:
         out_lines.append("UNDECIDED unit=%s%s reason=%s" % (r.unit.name, ("@" + r.cfg) if r.cfg else "", r.undecided))
+    for un, cfg, oid in timeouts:
+        out_lines.append("UNDECIDED unit=%s%s reason=solver timeout on %s (neither discharged nor failed)" % (un, ("@" + cfg) if cfg else "", oid))
     mut_info = None
     if mres is not None:
         mut_info = mres
@@ -194,11 +204,11 @@ def verdict(prop, tier, seed, mods, results, wall, write=True, mres=None, scratc
     for l in out_lines:
         print(l)
     print("%s tier=%s units=%d obligations=%d discharged=%d known=%d violations=%d undecided=%d%s wall=%.1fs" % (
-        prop, tier, len(results), n_obl, discharged, len(known_seen), len(violations), len(undecided),
+        prop, tier, len(results), n_obl, discharged, len(known_seen), len(violations), len(undecided) + len(timeouts),
         (" bounded-groups=%d/%d" % (bounded_info["groups_agreeing"], bounded_info["groups"])) if bounded_info else "", wall))
     if violations:
         return 1
-    if undecided or (mres and mres.get("missed")):
+    if undecided or timeouts or (mres and mres.get("missed")):
         return 2
     return 0
 
